@@ -105,6 +105,25 @@ type Case struct {
 	Runes   []int32  `json:"runes"`  // for string(rune)
 	Chars   []string `json:"chars"`  // character literal spellings
 	OobIdx  int      `json:"oob_idx"` // -1 or an out-of-range index used last
+	Twin    int      `json:"twin,omitempty"` // 0 none; 1 / 2: the other-quote twin of A's literal appears before / after A's
+}
+
+// twin returns the literal that has the same text between its quotes as lit but the other kind of quotes (raw for
+// interpreted and vice versa), and the bytes that literal denotes; ok is false where Go does not accept the twin.
+func twin(lit string) (other string, content string, ok bool) {
+	inner := lit[1 : len(lit)-1]
+	if lit[0] == '"' {
+		if strings.ContainsAny(inner, "`\r\n") || !utf8.ValidString(inner) {
+			return "", "", false
+		}
+		return "`" + inner + "`", inner, true
+	}
+	other = `"` + inner + `"`
+	got, err := strconv.Unquote(other)
+	if err != nil {
+		return "", "", false
+	}
+	return other, got, true
 }
 
 var charLits = []string{`'a'`, `'\''`, `'"'`, `'\\'`, `'\n'`, `'\t'`, `'\r'`, `'\x41'`, `'\x00'`, `'\xff'`, `'\000'`, `'\101'`, `'\377'`, `'é'`, `'€'`, `'😀'`, `'é'`, `'\U0001F600'`, `'\a'`, `'\b'`, `'\f'`, `'\v'`, `'0'`, `' '`, `'~'`, `' '`, `'漢'`}
@@ -138,6 +157,7 @@ func genCase(rt *rapid.T) *Case {
 	if rx.Chance(rt, "oob", 1, 12) {
 		c.OobIdx = la + rx.Range(rt, "beyond", 0, 2)
 	}
+	c.Twin = rx.Uniform(rt, 3, "twin")
 	return c
 }
 
@@ -161,6 +181,11 @@ func (c *Case) build() (src, want string, panics bool) {
 	stmt := func(format string, a ...any) { sb.WriteString(ind + fmt.Sprintf(format, a...) + "\n") }
 	out := func(a ...any) { fmt.Fprintln(&wb, a...) }
 	A, B, C := c.A.S(), c.B.S(), c.C.S()
+	tw, twContent, twOK := twin(c.A.Lit)
+	if c.Twin == 1 && twOK {
+		stmt(`fmt.Println("twin", len(%s), []byte(%s))`, tw, tw)
+		out("twin", len(twContent), []byte(twContent))
+	}
 	stmt("a := %s", c.A.Lit)
 	stmt("b := %s", c.B.Lit)
 	stmt("c := %s", c.C.Lit)
@@ -250,6 +275,10 @@ func (c *Case) build() (src, want string, panics bool) {
 	out("operands", []byte(A), []byte(B), []byte(C))
 	stmt(`fmt.Println("self", u == a+b, []byte(u[len(a):]))`)
 	out("self", true, []byte(B))
+	if c.Twin == 2 && twOK {
+		stmt(`fmt.Println("twin", len(%s), []byte(%s), %s == a, len(%s))`, tw, tw, tw, c.A.Lit)
+		out("twin", len(twContent), []byte(twContent), twContent == A, len(A))
+	}
 	// character literals
 	for _, ch := range c.Chars {
 		stmt(`fmt.Println("char", %s)`, ch)
@@ -341,6 +370,9 @@ func TestStrings(t *testing.T) {
 		}
 		if c.OobIdx >= 0 {
 			r.Class("planted_out_of_range_index")
+		}
+		if _, tc, ok := twin(c.A.Lit); ok && c.Twin > 0 && tc != c.A.S() {
+			r.Class("raw_and_interpreted_literal_with_the_same_spelling_differ")
 		}
 		r.Sample(map[string]any{"a": c.A.Lit, "b": c.B.Lit, "c": c.C.Lit, "chars": c.Chars, "runes": c.Runes, "in_func": c.InFunc})
 		return check(c)
